@@ -39,145 +39,8 @@ func runC20(c *core.Ctx) {
 	p := c.P
 	pathIDOpaque(c, "path-identifier-is-opaque")
 	attributeWalkComplete(c)
+	perNLRILoops(c)
 	const pkt = "protocols/bgp/packet"
-	pidF, pfxF, nextF := p.Field(pkt, "NLRI", "PathIdentifier"), p.Field(pkt, "NLRI", "Prefix"), p.Field(pkt, "NLRI", "Next")
-	pathPID := p.Field("route", "BGPPath", "PathIdentifier")
-	if pidF == nil || pfxF == nil || nextF == nil {
-		c.Undecided("anchor", pkt+".NLRI", token.NoPos, "NLRI fields not found")
-		return
-	}
-	nLoops := 0
-	for _, f := range p.MethodsOf(srv, "fsmAddressFamily") {
-		if f.Decl.Body == nil {
-			continue
-		}
-		// loops `for c := head; c != nil; c = c.Next`
-		var loops []*ast.ForStmt
-		cursors := map[types.Object]*ast.ForStmt{}
-		ast.Inspect(f.Decl.Body, func(n ast.Node) bool {
-			l, ok := n.(*ast.ForStmt)
-			if !ok || l.Init == nil || l.Post == nil {
-				return true
-			}
-			init, ok1 := l.Init.(*ast.AssignStmt)
-			post, ok2 := l.Post.(*ast.AssignStmt)
-			if !ok1 || !ok2 || len(post.Rhs) != 1 || core.FieldOf(f.Pkg, post.Rhs[0]) != nextF {
-				return true
-			}
-			cur := core.ObjOf(f.Pkg, init.Lhs[0])
-			if cur == nil || core.ObjOf(f.Pkg, post.Lhs[0]) != cur {
-				return true
-			}
-			loops = append(loops, l)
-			cursors[cur] = l
-			return true
-		})
-		if len(loops) == 0 {
-			continue
-		}
-		c.Analysed(f)
-		nLoops += len(loops)
-		// (1) every read of the per-NLRI fields is through a cursor, inside its loop
-		ord := 0
-		ast.Inspect(f.Decl.Body, func(n ast.Node) bool {
-			se, ok := n.(*ast.SelectorExpr)
-			if !ok {
-				return true
-			}
-			fv := core.FieldOf(f.Pkg, se)
-			if fv != pidF && fv != pfxF {
-				return true
-			}
-			ord++
-			base := core.ObjOf(f.Pkg, se.X)
-			l, isCur := cursors[base]
-			inside := isCur && se.Pos() >= l.Body.Pos() && se.End() <= l.Body.End()
-			c.Check(inside, "per-nlri-fields-from-cursor", fmt.Sprintf("%s read #%d of NLRI.%s (%s)", f.Name(), ord, fv.Name(), core.ExprString(se)), se.Pos(),
-				"a per-NLRI field is read through the head of the NLRI list (or outside the loop) instead of through the loop cursor: every NLRI of the UPDATE is then installed/withdrawn with the FIRST NLRI's "+fv.Name())
-			return true
-		})
-		for _, l := range loops {
-			var cur types.Object
-			for o, ll := range cursors {
-				if ll == l {
-					cur = o
-				}
-			}
-			// the RIB call inside the loop
-			nCalls := 0
-			ast.Inspect(l.Body, func(n ast.Node) bool {
-				call, ok := n.(*ast.CallExpr)
-				if !ok {
-					return true
-				}
-				se, ok := call.Fun.(*ast.SelectorExpr)
-				if !ok || (se.Sel.Name != "AddPath" && se.Sel.Name != "RemovePath") || len(call.Args) != 2 {
-					return true
-				}
-				nCalls++
-				construct := fmt.Sprintf("%s loop %s", f.Name(), se.Sel.Name)
-				// prefix from the cursor
-				okPfx := false
-				if ps, ok := core.Unparen(call.Args[0]).(*ast.SelectorExpr); ok && core.FieldOf(f.Pkg, ps) == pfxF && core.ObjOf(f.Pkg, ps.X) == cur {
-					okPfx = true
-				}
-				c.Check(okPfx, "per-nlri-fields-from-cursor", construct+" prefix is the cursor's", call.Pos(), "the prefix handed to the Adj-RIB-In is not the loop cursor's prefix")
-				// identifier of the path argument assigned from the cursor inside the loop
-				okID := false
-				ast.Inspect(l.Body, func(m ast.Node) bool {
-					switch x := m.(type) {
-					case *ast.AssignStmt:
-						for i, lh := range x.Lhs {
-							if core.FieldOf(f.Pkg, lh) == pathPID && i < len(x.Rhs) {
-								if rs, ok := core.Unparen(x.Rhs[i]).(*ast.SelectorExpr); ok && core.FieldOf(f.Pkg, rs) == pidF && core.ObjOf(f.Pkg, rs.X) == cur {
-									okID = true
-								}
-							}
-						}
-					case *ast.KeyValueExpr:
-						if id, ok := x.Key.(*ast.Ident); ok && id.Name == "PathIdentifier" {
-							if rs, ok := core.Unparen(x.Value).(*ast.SelectorExpr); ok && core.FieldOf(f.Pkg, rs) == pidF && core.ObjOf(f.Pkg, rs.X) == cur {
-								okID = true
-							}
-						}
-					}
-					return true
-				})
-				ast.Inspect(l.Body, func(m ast.Node) bool {
-					as, ok := m.(*ast.AssignStmt)
-					if !ok {
-						return true
-					}
-					for _, lh := range as.Lhs {
-						if core.FieldOf(f.Pkg, lh) == pathPID {
-							base := core.BaseIdent(lh)
-							c.Check(base != nil && freshInLoop(p, f, l.Body, core.ObjOf(f.Pkg, base)), "fresh-path-per-nlri", construct+" identifier is written into an object of this iteration", as.Pos(),
-								"the NLRI's path identifier is written into a path object that outlives the iteration (the message's shared path): whoever holds that object — the Adj-RIB-In, for an NLRI announced from the same message — sees the identifier of a different NLRI")
-						}
-					}
-					return true
-				})
-				c.Check(okID, "per-nlri-fields-from-cursor", construct+" path identifier is set from the cursor inside the loop", call.Pos(), "inside the per-NLRI loop the path's identifier is not set from the current NLRI")
-				// (2) freshness
-				if se.Sel.Name == "AddPath" {
-					fresh := false
-					switch a := core.Unparen(call.Args[1]).(type) {
-					case *ast.UnaryExpr:
-						_, fresh = a.X.(*ast.CompositeLit)
-					case *ast.CallExpr:
-						fresh = p.OwningCall(f, a)
-					case *ast.Ident:
-						fresh = freshInLoop(p, f, l.Body, core.ObjOf(f.Pkg, a))
-					}
-					c.Check(fresh, "fresh-path-per-nlri", construct+" path object is created inside the iteration", call.Pos(),
-						"one path object is handed to the Adj-RIB-In for several NLRI: the Adj-RIB-In stores the pointer and writes HiddenReason / default LOCAL_PREF / the identifier into it, so all prefixes of the UPDATE share (and overwrite) one path")
-				}
-				return true
-			})
-			c.Check(nCalls == 1, "per-nlri-fields-from-cursor", f.Name()+" loop issues one RIB call per NLRI", l.Pos(), "the per-NLRI loop does not contain exactly one AddPath/RemovePath call")
-		}
-	}
-	c.Check(nLoops >= 4, "per-nlri-fields-from-cursor", "per-NLRI loops found", token.NoPos, fmt.Sprintf("found %d loops over NLRI lists in fsmAddressFamily, hand-confirmed floor is 4", nLoops))
 
 	// (3) nilable NLRI lists
 	for _, tn := range []string{"MultiProtocolReachNLRI", "MultiProtocolUnreachNLRI"} {
@@ -325,4 +188,151 @@ func freshInLoop(p *core.Prog, f *core.Fn, body *ast.BlockStmt, obj types.Object
 		return true
 	})
 	return n > 0 && all
+}
+
+// perNLRILoops: the loops of fsmAddressFamily over NLRI lists hand the Adj-RIB-In, per iteration, the cursor's prefix, a
+// path identifier set from the cursor, and (for announcements) a path object created inside the iteration.  Shared by
+// C20 (each NLRI applied with its own identifier) and C07 (paths that share an object are withdrawn with the wrong
+// identifier when the session goes down, so routes survive it).
+func perNLRILoops(c *core.Ctx) {
+	p := c.P
+	const pkt = "protocols/bgp/packet"
+	pidF, pfxF, nextF := p.Field(pkt, "NLRI", "PathIdentifier"), p.Field(pkt, "NLRI", "Prefix"), p.Field(pkt, "NLRI", "Next")
+	pathPID := p.Field("route", "BGPPath", "PathIdentifier")
+	if pidF == nil || pfxF == nil || nextF == nil {
+		c.Undecided("anchor", pkt+".NLRI", token.NoPos, "NLRI fields not found")
+		return
+	}
+	nLoops := 0
+	for _, f := range p.MethodsOf(srv, "fsmAddressFamily") {
+		if f.Decl.Body == nil {
+			continue
+		}
+		// loops `for c := head; c != nil; c = c.Next`
+		var loops []*ast.ForStmt
+		cursors := map[types.Object]*ast.ForStmt{}
+		ast.Inspect(f.Decl.Body, func(n ast.Node) bool {
+			l, ok := n.(*ast.ForStmt)
+			if !ok || l.Init == nil || l.Post == nil {
+				return true
+			}
+			init, ok1 := l.Init.(*ast.AssignStmt)
+			post, ok2 := l.Post.(*ast.AssignStmt)
+			if !ok1 || !ok2 || len(post.Rhs) != 1 || core.FieldOf(f.Pkg, post.Rhs[0]) != nextF {
+				return true
+			}
+			cur := core.ObjOf(f.Pkg, init.Lhs[0])
+			if cur == nil || core.ObjOf(f.Pkg, post.Lhs[0]) != cur {
+				return true
+			}
+			loops = append(loops, l)
+			cursors[cur] = l
+			return true
+		})
+		if len(loops) == 0 {
+			continue
+		}
+		c.Analysed(f)
+		nLoops += len(loops)
+		// (1) every read of the per-NLRI fields is through a cursor, inside its loop
+		ord := 0
+		ast.Inspect(f.Decl.Body, func(n ast.Node) bool {
+			se, ok := n.(*ast.SelectorExpr)
+			if !ok {
+				return true
+			}
+			fv := core.FieldOf(f.Pkg, se)
+			if fv != pidF && fv != pfxF {
+				return true
+			}
+			ord++
+			base := core.ObjOf(f.Pkg, se.X)
+			l, isCur := cursors[base]
+			inside := isCur && se.Pos() >= l.Body.Pos() && se.End() <= l.Body.End()
+			c.Check(inside, "per-nlri-fields-from-cursor", fmt.Sprintf("%s read #%d of NLRI.%s (%s)", f.Name(), ord, fv.Name(), core.ExprString(se)), se.Pos(),
+				"a per-NLRI field is read through the head of the NLRI list (or outside the loop) instead of through the loop cursor: every NLRI of the UPDATE is then installed/withdrawn with the FIRST NLRI's "+fv.Name())
+			return true
+		})
+		for _, l := range loops {
+			var cur types.Object
+			for o, ll := range cursors {
+				if ll == l {
+					cur = o
+				}
+			}
+			// the RIB call inside the loop
+			nCalls := 0
+			ast.Inspect(l.Body, func(n ast.Node) bool {
+				call, ok := n.(*ast.CallExpr)
+				if !ok {
+					return true
+				}
+				se, ok := call.Fun.(*ast.SelectorExpr)
+				if !ok || (se.Sel.Name != "AddPath" && se.Sel.Name != "RemovePath") || len(call.Args) != 2 {
+					return true
+				}
+				nCalls++
+				construct := fmt.Sprintf("%s loop %s", f.Name(), se.Sel.Name)
+				// prefix from the cursor
+				okPfx := false
+				if ps, ok := core.Unparen(call.Args[0]).(*ast.SelectorExpr); ok && core.FieldOf(f.Pkg, ps) == pfxF && core.ObjOf(f.Pkg, ps.X) == cur {
+					okPfx = true
+				}
+				c.Check(okPfx, "per-nlri-fields-from-cursor", construct+" prefix is the cursor's", call.Pos(), "the prefix handed to the Adj-RIB-In is not the loop cursor's prefix")
+				// identifier of the path argument assigned from the cursor inside the loop
+				okID := false
+				ast.Inspect(l.Body, func(m ast.Node) bool {
+					switch x := m.(type) {
+					case *ast.AssignStmt:
+						for i, lh := range x.Lhs {
+							if core.FieldOf(f.Pkg, lh) == pathPID && i < len(x.Rhs) {
+								if rs, ok := core.Unparen(x.Rhs[i]).(*ast.SelectorExpr); ok && core.FieldOf(f.Pkg, rs) == pidF && core.ObjOf(f.Pkg, rs.X) == cur {
+									okID = true
+								}
+							}
+						}
+					case *ast.KeyValueExpr:
+						if id, ok := x.Key.(*ast.Ident); ok && id.Name == "PathIdentifier" {
+							if rs, ok := core.Unparen(x.Value).(*ast.SelectorExpr); ok && core.FieldOf(f.Pkg, rs) == pidF && core.ObjOf(f.Pkg, rs.X) == cur {
+								okID = true
+							}
+						}
+					}
+					return true
+				})
+				ast.Inspect(l.Body, func(m ast.Node) bool {
+					as, ok := m.(*ast.AssignStmt)
+					if !ok {
+						return true
+					}
+					for _, lh := range as.Lhs {
+						if core.FieldOf(f.Pkg, lh) == pathPID {
+							base := core.BaseIdent(lh)
+							c.Check(base != nil && freshInLoop(p, f, l.Body, core.ObjOf(f.Pkg, base)), "fresh-path-per-nlri", construct+" identifier is written into an object of this iteration", as.Pos(),
+								"the NLRI's path identifier is written into a path object that outlives the iteration (the message's shared path): whoever holds that object — the Adj-RIB-In, for an NLRI announced from the same message — sees the identifier of a different NLRI")
+						}
+					}
+					return true
+				})
+				c.Check(okID, "per-nlri-fields-from-cursor", construct+" path identifier is set from the cursor inside the loop", call.Pos(), "inside the per-NLRI loop the path's identifier is not set from the current NLRI")
+				// (2) freshness
+				if se.Sel.Name == "AddPath" {
+					fresh := false
+					switch a := core.Unparen(call.Args[1]).(type) {
+					case *ast.UnaryExpr:
+						_, fresh = a.X.(*ast.CompositeLit)
+					case *ast.CallExpr:
+						fresh = p.OwningCall(f, a)
+					case *ast.Ident:
+						fresh = freshInLoop(p, f, l.Body, core.ObjOf(f.Pkg, a))
+					}
+					c.Check(fresh, "fresh-path-per-nlri", construct+" path object is created inside the iteration", call.Pos(),
+						"one path object is handed to the Adj-RIB-In for several NLRI: the Adj-RIB-In stores the pointer and writes HiddenReason / default LOCAL_PREF / the identifier into it, so all prefixes of the UPDATE share (and overwrite) one path")
+				}
+				return true
+			})
+			c.Check(nCalls == 1, "per-nlri-fields-from-cursor", f.Name()+" loop issues one RIB call per NLRI", l.Pos(), "the per-NLRI loop does not contain exactly one AddPath/RemovePath call")
+		}
+	}
+	c.Check(nLoops >= 4, "per-nlri-fields-from-cursor", "per-NLRI loops found", token.NoPos, fmt.Sprintf("found %d loops over NLRI lists in fsmAddressFamily, hand-confirmed floor is 4", nLoops))
 }
